@@ -6,6 +6,7 @@ import (
 	"runtime"
 	"sort"
 	"strings"
+	"sync"
 	"time"
 )
 
@@ -90,7 +91,8 @@ func ParseDump(dump string) []G {
 // Snapshot dumps all goroutines and returns the relevant ones other than the
 // caller, plus the raw dump.
 func Snapshot() ([]G, string) {
-	buf := make([]byte, 1<<20)
+	bp := dumpBufs.Get().(*[]byte)
+	buf := *bp
 	for {
 		n := runtime.Stack(buf, true)
 		if n < len(buf) {
@@ -100,6 +102,8 @@ func Snapshot() ([]G, string) {
 		buf = make([]byte, 2*len(buf))
 	}
 	dump := string(buf)
+	*bp = buf[:cap(buf)]
+	dumpBufs.Put(bp)
 	all := ParseDump(dump)
 	var out []G
 	for i, g := range all {
@@ -112,6 +116,8 @@ func Snapshot() ([]G, string) {
 	}
 	return out, dump
 }
+
+var dumpBufs = sync.Pool{New: func() any { b := make([]byte, 256<<10); return &b }}
 
 // AllParked reports whether every relevant goroutine other than the caller is
 // parked; it also returns a short description of those that are not.
@@ -196,16 +202,20 @@ func (w *Watch) Wait(done <-chan struct{}) Result {
 	last := w.Prog.Load()
 	lastChange := start
 	confirmed := 0
-	poll := 200 * time.Microsecond
-	for {
+	poll := 20 * time.Microsecond
+	for spin := 0; ; spin++ {
 		select {
 		case <-done:
 			return Result{Verdict: Done}
 		default:
 		}
+		if spin < 20 {
+			runtime.Gosched()
+			continue
+		}
 		time.Sleep(poll)
 		if poll < 5*time.Millisecond {
-			poll *= 2
+			poll = poll * 3 / 2
 		}
 		now := time.Now()
 		if cur := w.Prog.Load(); cur != last {
@@ -249,10 +259,12 @@ func (w *Watch) Wait(done <-chan struct{}) Result {
 func (w *Watch) Quiesce() bool {
 	w.defaults()
 	start := time.Now()
-	delay := 50 * time.Microsecond
+	delay := 20 * time.Microsecond
 	for {
 		before := w.Prog.Load()
-		runtime.Gosched()
+		for i := 0; i < 4; i++ {
+			runtime.Gosched()
+		}
 		gs, _ := Snapshot()
 		if ok, _ := AllParked(gs); ok && w.Prog.Load() == before {
 			return true
